@@ -173,5 +173,6 @@ class VdiSuite(ReaderSuite):
 
 SUITES = {"vdi": VdiSuite()}
 
-from harness.readers import under_O  # noqa: E402
+from harness.readers import under_O, under_debug  # noqa: E402
 SUITES["vdi_pyO"] = under_O(SUITES["vdi"])
+SUITES["vdi_dbg"] = under_debug(SUITES["vdi"])
